@@ -142,3 +142,36 @@ M("C20", "ht benign: whole struct copy", HT, """            prev->key = entry->k
             prev->next = entry->next;
             ckd_free(entry);""", kind="benign")
 M("C20", "ht benign: inc spelled differently", HT, "    ++h->inuse;\n\n    return val;", "    h->inuse++;\n\n    return val;", kind="benign")
+
+LM = "src/logmath.c"
+# ---- C19 ----------------------------------------------------------------------
+M("C19", "lm: drop upper bound", LM, "    if ((size_t)d >= t->table_size) {", "    if ((size_t)d > t->table_size) {", "GUARD.table-read")
+M("C19", "lm: drop d<0 test", LM, """    if (d < 0) {
+        /* Some kind of overflow has occurred, fail gracefully. */
+        return r;
+    }
+""", "", "GUARD.table-read")
+M("C19", "lm: r is the smaller", LM, """        d = (logb_y - logb_x);
+        r = logb_y;""", """        d = (logb_y - logb_x);
+        r = logb_x;""", "TWIN.symmetry")
+M("C19", "lm: zero test asymmetric", LM, """    if (logb_y <= lmath->zero)
+        return logb_x;""", """    if (logb_y < lmath->zero)
+        return logb_x;""", "TWIN.symmetry")
+M("C19", "lm: case 2 read as uint8", LM, "        return r + (((uint16 *)t->table)[d]);", "        return r + (((uint8 *)t->table)[d]);", "TABLE.width")
+M("C19", "lm: subtract entry", LM, "        return r + (((uint32 *)t->table)[d]);", "        return r - (((uint32 *)t->table)[d]);", "ORDER.monotone")
+M("C19", "lm: log no guard", LM, """    if (p <= 0) {
+        return lmath->zero;
+    }""", """    if (p < 0) {
+        return lmath->zero;
+    }""", "TABLE.conversions")
+M("C19", "lm: ln_to_log uses log10 const", LM, """logmath_ln_to_log(logmath_t *lmath, float64 log_p)
+{
+    return (int)(log_p * lmath->inv_log_of_base) >> lmath->t.shift;""", """logmath_ln_to_log(logmath_t *lmath, float64 log_p)
+{
+    return (int)(log_p * lmath->inv_log10_of_base) >> lmath->t.shift;""", "TABLE.conversions")
+M("C19", "lm: fill pass rounds differently", LM, """        int32 k = (int32)(lobyx + 0.5 * (1 << shift)) >> shift; /* Round to shift */
+        uint32 prev = 0;""", """        int32 k = (int32)(lobyx) >> shift; /* Round to shift */
+        uint32 prev = 0;""", "TWIN.table-passes")
+M("C19", "lm: table_size off by one", LM, "    lmath->t.table_size = i + 1;", "    lmath->t.table_size = i + 2;", "TABLE.width")
+M("C19", "lm: width threshold 3 bytes", LM, "    else if (maxyx < 65536)\n        width = 2;", "    else if (maxyx < 65536)\n        width = 3;", "TABLE.width")
+M("C19", "lm benign: swap operands", LM, "        return r + (((uint8 *)t->table)[d]);", "        return (((uint8 *)t->table)[d]) + r;", kind="benign")
